@@ -72,3 +72,15 @@ Proof.
   destruct (decode_item b) eqn:B; try discriminate. intro H. injection H as <- <-.
   split; eapply decode_item_scalar; eauto.
 Qed.
+
+Lemma compile_lit_scalar gd ins body m : compile_lit gd ins body = LOk m ->
+  match m with LMChar c => is_scalar c = true | LMStr s => all_scalar s | _ => True end.
+Proof.
+  unfold compile_lit. destruct (decode_items body) as [cs| |] eqn:D; try discriminate.
+  pose proof (decode_items_scalar _ _ D) as Hs.
+  destruct ins.
+  - destruct (gd && negb (forallb is_ascii cs)); [discriminate|].
+    destruct (map _ cs) as [|c [|c2 r]]; intro H; injection H as <-; exact I.
+  - destruct cs as [|c [|c2 r]]; intro H; injection H as <-; cbn; auto.
+    inversion Hs; subst. assumption.
+Qed.
